@@ -1,5 +1,5 @@
 \* C10 exhaustive: every attach/detach order on two interleaved threads, depth <= 3
-CONSTANTS NT = 2  NK = 1  NV = 1  NS = 1  MaxCtx = 2  MaxSet = 1  MaxDepth = 3  MaxMap = 1  MaxDrop = 0
+CONSTANTS NT = 2  NK = 1  NV = 1  NS = 1  MaxCtx = 2  MaxSet = 1  MaxDepth = 3  MaxMap = 1  MaxDrop = 0  WithEmpty = FALSE
           GenDepth = 0  DeepTarget = 99  Hist = FALSE  KeepFlags = FALSE  Dev = {}
 INIT Init
 NEXT Next
